@@ -254,6 +254,14 @@ def pddl_text_tags(*texts):
                 out.append(a)
         return out
 
+    def unwrap(x):
+        if not isinstance(x, list):
+            return x
+        x = [unwrap(a) for a in x]
+        if len(x) == 2 and x[0] in ("and", "or"):
+            return x[1]
+        return x
+
     def walk(x):
         if not isinstance(x, list):
             return
@@ -266,7 +274,8 @@ def pddl_text_tags(*texts):
                 if a == ":precondition" and x[i + 1] == []:
                     tags.add("empty-precondition")
             if x[0] == "and":
-                effs = [repr(a) for a in x[1:] if isinstance(a, list) and ("increase" in repr(a) or "decrease" in repr(a))]
+                # (the parser's And / Or also collapse unary occurrences: (when c (and e)) and (when c e) are the same operand)
+                effs = [repr(unwrap(a)) for a in x[1:] if isinstance(a, list) and ("increase" in repr(a) or "decrease" in repr(a))]
                 if len(set(effs)) != len(effs):
                     tags.add("dup-effects")
             if x[0] in ("/", "-") and len(x) == 3:
@@ -477,6 +486,11 @@ def anml_failure_tag(ex, tags):
     line = str(getattr(ex, "line", "") or "").strip()
     if "type-bound-syntax" in roots and line.startswith(("fluent ", "constant ")):
         return "type-bound-syntax"
+    if "iff-compound-operand" in roots and "==" in line and "when (" not in line:
+        # `(g == (forall(..) {..}))`, `(g == (not h))`: the relation level of the grammar stops at the Boolean operand of `==`,
+        # whatever that operand is (a quantifier there is not the keyword commitment: that one is about `when (forall` / a
+        # quantifier as first operand of and / or / implies)
+        return "iff-compound-operand"
     if "keyword-as-fluent-ref" in roots and ("forall(" in line or "exists(" in line or "when (not (" in line):
         return "keyword-as-fluent-ref"
     return anml_primary_tag(tags)
